@@ -124,8 +124,15 @@ class Run(Part):
         ev = {"property_id": self.prop, "tier": self.tier, "seed": int(self.seed), "level": self.level,
               "coverage": cov, "assumptions": self.assumptions,
               "wall_s": round(time.time() - self.t0, 2), "violations": n_viol}
-        os.makedirs(os.path.join(VERIF, "evidence"), exist_ok=True)
-        with open(os.path.join(VERIF, "evidence", self.prop + ".json"), "w") as fh:
+        # evidence of runs against a scratch copy of the repository (seeded changes, VERIF_REPO) must never
+        # replace the evidence of the registered checks, which describes /repo itself
+        evdir = os.path.join(VERIF, "evidence")
+        repo = os.path.abspath(os.environ.get("VERIF_REPO", "/repo"))
+        if repo != "/repo":
+            evdir = os.path.join(VERIF, "out", "scratch-evidence")
+        os.makedirs(evdir, exist_ok=True)
+        ev = _shrink(ev)
+        with open(os.path.join(evdir, self.prop + ".json"), "w") as fh:
             json.dump(ev, fh, indent=1, default=_js)
         print("%s %s seed=%d: evaluations=%d distinct=%d violations=%d known=%d wall=%.1fs"
               % (self.prop, self.tier, self.seed, self.evaluations, distinct, n_viol, len(known_seen),
@@ -143,6 +150,23 @@ class Run(Part):
                 print("INCONCLUSIVE: observed nothing (evaluations=%d distinct=%d)" % (self.evaluations, distinct))
             return 2
         return 0
+
+
+def _shrink(o, depth=0):
+    """keep evidence files small: long strings are cut, long lists are cut (with a note)"""
+    if isinstance(o, str):
+        return o if len(o) <= 1500 else o[:1500] + "...(%d chars)" % len(o)
+    if isinstance(o, (bytes, bytearray)):
+        return _shrink(bytes(o).hex())
+    if isinstance(o, dict):
+        return {k: _shrink(v, depth + 1) for k, v in o.items()}
+    if isinstance(o, (list, tuple)):
+        lim = 400 if depth <= 2 else 60
+        out = [_shrink(v, depth + 1) for v in list(o)[:lim]]
+        if len(o) > lim:
+            out.append("...(%d more)" % (len(o) - lim))
+        return out
+    return o
 
 
 def _js(o):
